@@ -161,3 +161,73 @@ def normalise_module(tree):
     if n:
         ast.fix_missing_locations(tree)
     return n
+
+
+# ---------------------------------------------------------------------------------------------------------------- N2
+def _literal(e):
+    try:
+        v = ast.literal_eval(e)
+    except Exception:
+        return _NO
+    ok = lambda x: isinstance(x, (int, float, str, bool, type(None)))       # noqa
+    if ok(v) or (isinstance(v, (tuple, list)) and all(ok(x) for x in v)):
+        return v
+    return _NO
+
+
+_NO = object()
+
+
+def mark_module_constants(modules):
+    """N2 - *a literal held in a module-level name*.  `VIEWPOINT_ANG = 180` ... `f(VIEWPOINT_ANG)` and `f(180)` are one
+    program when the name is bound exactly once, at module level, to a literal (number, string, None, bool or a tuple / list
+    of these) and no function rebinds it (`global`).  The tree is not rewritten (rules that identify records or tables by
+    the names of their constants keep seeing the names): every *read* of such a name inside a function that does not shadow
+    it gets the attribute `_xrsa_const` with the literal's value, which `astutil.const` returns.  Names imported from another
+    module of the package (`from .x import LIMIT`) are followed one step.  `modules`: name -> program.Module."""
+    table = {}
+    for mn, m in modules.items():
+        binds = {}
+        for st in m.tree.body:
+            tg = []
+            if isinstance(st, ast.Assign):
+                tg = [t for t in st.targets]
+            elif isinstance(st, (ast.AnnAssign, ast.AugAssign)):
+                tg = [st.target]
+            for t in tg:
+                for x in ast.walk(t):
+                    if isinstance(x, ast.Name):
+                        binds.setdefault(x.id, []).append(st)
+        for n in ast.walk(m.tree):
+            if isinstance(n, (ast.Global, ast.Nonlocal)):
+                for nm in n.names:
+                    binds.setdefault(nm, []).append(n)
+            if isinstance(n, (ast.FunctionDef, ast.ClassDef)) and n in m.tree.body:
+                binds.setdefault(n.name, []).append(n)
+        consts = {}
+        for nm, sts in binds.items():
+            if len(sts) == 1 and isinstance(sts[0], ast.Assign) and len(sts[0].targets) == 1 and isinstance(sts[0].targets[0], ast.Name):
+                v = _literal(sts[0].value)
+                if v is not _NO:
+                    consts[nm] = v
+        table[mn] = consts
+    n_marked = 0
+    for mn, m in modules.items():
+        consts = dict(table[mn])
+        for local, imp in m.imports.items():
+            if imp[0] == 'attr' and imp[1] in table and imp[2] in table[imp[1]] and local not in consts:
+                consts[local] = table[imp[1]][imp[2]]
+        if not consts:
+            continue
+        for fn in [x for x in ast.walk(m.tree) if isinstance(x, (ast.FunctionDef, ast.AsyncFunctionDef, ast.Lambda))]:
+            a = fn.args
+            shadow = {x.arg for x in a.posonlyargs + a.args + a.kwonlyargs} | ({a.vararg.arg} if a.vararg else set()) | ({a.kwarg.arg} if a.kwarg else set())
+            for x in ast.walk(fn):
+                if isinstance(x, ast.Name) and isinstance(x.ctx, (ast.Store, ast.Del)):
+                    shadow.add(x.id)
+            for x in ast.walk(fn):
+                if isinstance(x, ast.Name) and isinstance(x.ctx, ast.Load) and x.id in consts and x.id not in shadow:
+                    x._xrsa_const = consts[x.id]
+                    n_marked += 1
+    return n_marked
+
